@@ -115,7 +115,12 @@ def write_graph(molecule, smiles_format=False, default_element='*'):
             previous = previous[0]
             if _write_edge_symbol(molecule, previous, current):
                 order = molecule.edges[previous, current].get('order', 1)
-                smiles += order_to_symbol[order]
+                if not smiles_format and smiles.endswith('('):
+                    # in CGsmiles the bond order to the first node of
+                    # a branch is written in front of the branch
+                    smiles = smiles[:-1] + order_to_symbol[order] + '('
+                else:
+                    smiles += order_to_symbol[order]
 
         if smiles_format:
             smiles += format_atom(molecule, current, default_element)
